@@ -606,6 +606,15 @@ func (e *Eval) compile(node ast.Node) error {
 		//
 		e.changeOperand(jumpEnd, len(e.instructions))
 
+		// Finally add a "Nop" instruction, one that will not
+		// be optimized away.
+		//
+		// Because our "jmp END" will jump to an instruction which
+		// might not exist otherwise, and because the optimizer
+		// must not combine whatever follows END with the
+		// baz-code which only one of the two paths executes.
+		e.emit(code.OpPlaceholder)
+
 	case *ast.SwitchExpression:
 
 		//
